@@ -80,6 +80,8 @@ def spec_to_code(report, module, cfg_text, replayer, opts=(), *, workers_tlc=12,
     report.add("states", res.distinct)
     report.add("transitions", res.generated)
     report.add("behaviours_replayed", agg["total"])
+    report.add("real_calls_in_state_tables", sum(c for a, c in agg["tags"].items()
+                                                   if a.startswith("calls:") and a.count(":") == 1))
     report.add("distinct_final_states_replayed", len(agg["finals"]))
     tg = report.cov.setdefault("case_tags", {})
     for a, c in agg["tags"].items():
